@@ -229,7 +229,7 @@ def _child(fn, task, conn, timeout):
         os._exit(0)
 
 
-def fresh_map(fn, tasks, jobs=16, timeout=120):
+def fresh_map(fn, tasks, jobs=16, timeout=120, on_timeout=None):
     """fn(task) in a brand-new forked process per task (nothing carried over
     between tasks); results in task order.  A crash is a harness error."""
     tasks = list(tasks)
@@ -259,7 +259,10 @@ def fresh_map(fn, tasks, jobs=16, timeout=120):
             elif time.time() - t0 > timeout + 30:
                 p.kill()
                 p.join()
-                results[i] = ("err", "child killed by the outer watchdog")
+                if on_timeout is not None:
+                    results[i] = ("ok", on_timeout(tasks[i]))      # for fault scenarios a hang IS the verdict
+                else:
+                    results[i] = ("err", "child killed by the outer watchdog")
                 done.append(i)
         for i in done:
             running.pop(i)[1].close()
